@@ -1034,12 +1034,35 @@ def run(w, rep, tier):
             if value_ok:
                 return rep.na(rule, inst, "spelling not recognised by the idiom rule (%s); the construct is decided on its value by C19.value" % msg)
             return rep.incomplete(rule, inst, msg, where=where, **kw)
-    cx = Ctx(w, rep)
-    casadi_side(cx)
+
+        def fail(self, rule, inst, msg, where=None, **kw):
+            # a built-in function reached through a helper the idiom rule cannot see through: the value rule has compared
+            # the converted value with the meaning of the tree
+            if value_ok and ("the same function is" in msg or "accepts only" in msg):
+                return rep.na(rule, inst, "spelling not recognised by the idiom rule (%s); decided on its value by C19.value" % msg[:120])
+            return rep.fail(rule, inst, msg, where=where, **kw)
+    from .c19_value import check_casadi_value
+    cvalue_ok = check_casadi_value(w, rep, OPS, verdict, Ctx(w, rep))
+
+    class CasadiIdiomReport(IdiomReport):
+        def incomplete(self, rule, inst, msg, where=None, **kw):
+            if cvalue_ok:
+                return rep.na(rule, inst, "spelling not recognised by the idiom rule (%s); the construct is decided on its value by C19.value" % msg)
+            return rep.incomplete(rule, inst, msg, where=where, **kw)
+
+        def fail(self, rule, inst, msg, where=None, **kw):
+            # "returns X; the row accepts only ..." is the idiom rule not recognising how the operands reach the construct;
+            # the value rule has looked the constructed expression itself up in the same table
+            if cvalue_ok and "accepts only" in msg:
+                return rep.na(rule, inst, "spelling not recognised by the idiom rule (%s); decided on its value by C19.value" % msg[:120])
+            return rep.fail(rule, inst, msg, where=where, **kw)
+    casadi_side(Ctx(w, CasadiIdiomReport()))
     sympy_side(Ctx(w, IdiomReport()))
     cse_order(w, IdiomReport())
-    relaxed = value_ok and any(o.status == "na" and "C19.value" in (o.msg or "") for o in rep.obs)
-    rep.floor("C19.table", 34)
+    relaxed = (value_ok or cvalue_ok) and any(o.status == "na" and "C19.value" in (o.msg or "") for o in rep.obs)
+    # (C19.table is the idiom form of what C19.value decides for the CasADi side: when the plumbing is not recognised and the
+    # value rule has decided every opcode, its count may fall to zero)
+    rep.floor("C19.table", 34 if not (cvalue_ok and relaxed) else 0)
     # instance counts confirmed by hand; when the sympy side is spelled in a way the idiom rules do not read (and C19.value
     # decides it) only the CasADi side contributes
     rep.floor("C19.dispatch", 110 if not relaxed else 90)
